@@ -83,10 +83,35 @@ def case_inputs(rng, th):
 	return args, desc, dsl
 
 
-def run_case(rep, drv, rng, th):
+def corpus_inputs(name):
+	"""Fixed instances that run first in both tiers: the situations earlier seeded changes needed."""
+	from stockpyl.demand_source import DemandSource
+	if name == 'mixed-equal-moments':
+		# consecutive periods with equal mean and sd but different distributions
+		T = 3; dsl = [DemandSource(type='N', mean=16, standard_deviation=4), DemandSource(type='P', mean=16), DemandSource(type='N', mean=16, standard_deviation=4)]
+		hl, pl, cl, Kl, gl = [1] * T, [10] * T, [1] * T, [20] * T, [0.95] * T
+		kw = dict(demand_source=list(dsl)); kind = 'mixed'
+	elif name == 'rising-fixed-costs':
+		T = 4; dsl = [None] * T
+		hl, pl, cl, Kl, gl = [1] * T, [10] * T, [1] * T, [0, 5, 20, 50], [1.0] * T
+		kw = dict(demand_mean=8, demand_sd=2); kind = 'normal'
+	else:
+		# rising AND falling fixed costs, period-varying discount, Poisson demand
+		T = 4; dsl = [DemandSource(type='P', mean=5) for _ in range(T)]
+		hl, pl, cl, Kl, gl = [1, 2, 1, 0.5], [5, 10, 20, 10], [0, 1, 2, 1], [50, 5, 20, 0], [0.9, 0.5, 1.0, 0.75]
+		kw = dict(demand_source=list(dsl)); kind = 'P'
+	ml = [float(d.mean if d is not None and d.mean is not None else (d.demand_distribution.mean() if d is not None else kw['demand_mean'])) for d in dsl]
+	sl = [float(d.standard_deviation if d is not None and d.standard_deviation is not None else (d.demand_distribution.std() if d is not None else kw['demand_sd'])) for d in dsl]
+	args = dict(num_periods=T, holding_cost=hl, stockout_cost=pl, terminal_holding_cost=1, terminal_stockout_cost=5, purchase_cost=cl, fixed_cost=Kl,
+				discount_factor=gl, initial_inventory_level=2, **kw)
+	desc = {'T': T, 'kind': kind, 'h': hl, 'p': pl, 'c': cl, 'K': Kl, 'gamma': gl, 'th': 1, 'tp': 5, 'mean': ml, 'sd': sl, 'x0': 2, 'corpus': name}
+	return args, desc, dsl
+
+
+def run_case(rep, drv, rng, th, corpus=None):
 	from stockpyl.finite_horizon import finite_horizon_dp
 	from stockpyl.demand_source import DemandSource
-	args, desc, dsl = case_inputs(rng, th)
+	args, desc, dsl = corpus_inputs(corpus) if corpus else case_inputs(rng, th)
 	T = desc['T']
 	rep.case('finite_horizon_dp', desc, nontrivial=True)
 	rep.count('fh:T=%d' % T); rep.count('fh:demand=' + desc['kind']); rep.count('fh:K=0' if all(k == 0 for k in desc['K']) else 'fh:K>0')
@@ -215,7 +240,9 @@ def run(rep, drv):
 				'custom-discrete sources; every cell of cost_matrix vs the documented recursion (exact model), oul by objective value, (s,S) extraction, evaluation mode, K=0; '
 				'myopic bounds. non-trivial = all')
 	rng = random.Random(rep.seed + 12)
-	for k in range(300 if th else 36):
+	for name in ('mixed-equal-moments', 'rising-fixed-costs', 'varying-everything'):
+		run_case(rep, drv, rng, th, corpus=name)
+	for k in range(300 if th else 34):
 		run_case(rep, drv, rng, th)
 	for k in range(40 if th else 6):
 		myopic_case(rep, rng)
